@@ -157,7 +157,7 @@ def check_ordered(run, F):
                        "%s.%s(..) can reorder or drop elements of a group/value list: %s" % (show(n["recv"])[:40], name, show(n)[:100]), site(body, n), key=key)
             else:
                 run.ob("R-ORDERED", "%s: %s keeps order" % (path, name), True)
-    run.floor("R-ORDERED", n_sites, 6, "method calls on group / value lists")
+    run.floor("R-ORDERED", n_sites, 3, "method calls on group / value lists")
 
 
 def check(run, views, tier):
@@ -242,14 +242,20 @@ def check(run, views, tier):
             incs = [t for t in p.trace if is_call(t, "<assignop>") and "index" in str(t[2][0][1])]
             assigns = [t for t in p.trace if is_call(t, "<assign>") and "index" in str(t[2][0][1])]
             is_some = r[0] == "ctor" and r[1].endswith("::Some")
-            is_none = r[0] == "ctor" and r[1].endswith("::None")
+            is_none = (r[0] == "ctor" and r[1].endswith("::None")) or p.kind == "try"       # `?` on an Option returns None
             if is_some:
                 arms[arm] += 1
                 ok = len(incs) == 1 and not assigns and incs[0][2][1] == ("lit", "AddAssign") and incs[0][2][2] == ("lit", 1)
                 run.ob("R-CONTAINER", "iterator[%s]: Some path advances the index by exactly 1" % arm, ok,
                        "index updates on this path: %s [%s]" % ([tshow(t) for t in incs + assigns], pc), site(nb), key="R-CONTAINER|next|%s|progress" % arm)
                 el = r[2][0]
-                if arm == "Array":
+                if arm == "Array" and el[0] == "ok?" and is_call(el[1], "core::slice::<impl [T]>::get") and el[1][2][1] == IDX:
+                    # array.get(index)? : element and bound check in one
+                    base = el[1][2][0]
+                    ok_el = base[0] == "proj" and base[1] == ("field", ("var", "self"), "value")
+                    run.ob("R-CONTAINER", "iterator[Array]: yields array[old index]", ok_el, "yields %s" % tshow(el)[:120], site(nb), key="R-CONTAINER|next|Array|element")
+                    run.ob("R-CONTAINER", "iterator[Array]: guarded by index < len", True, "get(index)?", site(nb), key="R-CONTAINER|next|Array|guard")
+                elif arm == "Array":
                     ok_el = el[0] == "index" and el[2] == IDX and el[1][0] == "proj" and el[1][1] == ("field", ("var", "self"), "value")
                     guard = any(c[0] in ("if", "guard") and c[2] is True and c[1][0] == "bin" and c[1][1] == "Lt" and c[1][2] == IDX and is_call(c[1][3]) and c[1][3][1].endswith("::len")
                                 for c in p.conds)
@@ -262,6 +268,8 @@ def check(run, views, tier):
                     why = tshow(el)[:160]
                     if base[0] == "proj" and base[2] in ("1",) or (base[0] == "field" and base[2] == "1"):
                         ent = base[1]
+                        if ent[0] == "ok?" and is_call(ent[1], "std::iter::Iterator::nth"):
+                            ent = ("proj", ent[1], "Some.0")            # map.iter().nth(index)?.1
                         if ent[0] == "proj" and is_call(ent[1], "std::iter::Iterator::nth"):
                             nth = ent[1]
                             ok_el = nth[2][1] == IDX and is_call(nth[2][0]) and nth[2][0][1] in ("std::collections::BTreeMap::<K, V, A>::iter",) and nth[2][0][2][0][0] == "proj"
@@ -272,7 +280,8 @@ def check(run, views, tier):
                            "unrecognised collection traversal: %s (accepted: map.iter().nth(index).1 / map.values().nth(index))" % why, site(nb),
                            key="R-CONTAINER|next|Collection|element")
                 else:
-                    guard = any(c[0] in ("if", "guard") and c[2] is True and c[1] == ("bin", "Eq", IDX, ("lit", 0)) for c in p.conds)
+                    guard = any(c[0] in ("if", "guard") and ((c[2] is True and c[1] == ("bin", "Eq", IDX, ("lit", 0))) or (c[2] is False and c[1] == ("bin", "Ne", IDX, ("lit", 0))))
+                                for c in p.conds)
                     # the scalar arm must be unreachable for containers: both container arms are earlier and unguarded
                     for c in p.conds:
                         if c[0] == "match" and c[1] == ("field", ("var", "self"), "value") and c[4].get("k") in ("wild", "bind"):
